@@ -21,13 +21,17 @@ func split(ctx context.Context, r io.Reader) (<-chan string, <-chan error) {
 		}()
 
 		block := ""
+		sharp := false // "#" で始まる行が現れた後は、"#" の行だけがRootブロックの先頭 (parserのisSharpRootと同じ規則)
 		for sc.Scan() {
 			select {
 			case <-ctx.Done():
 				return
 			default:
 				l := sc.Text()
-				if isRootBlockBeginning(l) {
+				if len(l) != 0 && l[0:1] == "#" {
+					sharp = true
+				}
+				if isRootBlockBeginning(l, sharp) {
 					if len(block) != 0 {
 						select {
 						case <-ctx.Done():
@@ -65,9 +69,13 @@ func sendErr(ctx context.Context, errc chan<- error, err error) {
 	}
 }
 
-func isRootBlockBeginning(l string) bool {
+func isRootBlockBeginning(l string, sharp bool) bool {
 	if len(l) == 0 {
 		return false
+	}
+	if sharp {
+		// under # roots a list row in the first column is a child, not a root
+		return l[0:1] == "#"
 	}
 	return md.IsSymbol(l[0:1])
 }
